@@ -37,7 +37,7 @@ ASSUMPTIONS = [
     'vectors (it drops them by design)',
 ]
 ANCHORS = ['Table.__eq__', 'Table.descriptive_equality', 'Table._data_equality', 'Table._get_row', 'Table._get_col']
-REQUIRED = ['derived_exports_compared', 'pairs_compared', 'cell_queries_on_fresh_layout', 'derived_vs_rebuilt', 'accessor_interleavings',
+REQUIRED = ['tables_with_ragged_metadata', 'derived_exports_compared', 'pairs_compared', 'cell_queries_on_fresh_layout', 'derived_vs_rebuilt', 'accessor_interleavings',
             'single_difference_pairs', 'tiny_value_difference_pairs',
             'exports_compared_tsv', 'exports_compared_json',
             'exports_compared_hdf5', 'route_stored_zeros_input',
@@ -156,7 +156,9 @@ def _touch(t, i, axis):
 def accessor(r, t, other):
     k = r.choice(['nnz', 'data', 'iter', 'eq', 'sum', 'str', 'nonzero',
                   'density', 'none', 'tsv-header-absent', 'tsv-header-present',
-                  'to_json', 'repr', 'min-max', 'to_dataframe'])
+                  'to_json', 'repr', 'min-max', 'to_dataframe',
+                  'metadata_to_dataframe', 'metadata-lookups', 'group-md',
+                  'is_empty-length-shape', 'exists-index', 'descriptive'])
     if k == 'nnz':
         t.nnz
     elif k == 'data':
@@ -195,6 +197,37 @@ def accessor(r, t, other):
             pass            # a vector without non-zero values
     elif k == 'to_dataframe':
         t.to_dataframe(dense=bool(r.random() < .5))
+    elif k == 'metadata_to_dataframe':
+        for ax in ('observation', 'sample'):
+            if t.metadata(axis=ax) is not None:
+                try:
+                    t.metadata_to_dataframe(ax)
+                except Exception:
+                    pass        # what it can tabulate is C19's subject
+    elif k == 'metadata-lookups':
+        for ax in ('observation', 'sample'):
+            ids = t.ids(axis=ax)
+            t.metadata(ids[0], axis=ax)
+            t.metadata(axis=ax)
+            if t.metadata(axis=ax) is not None:
+                list(t.iter(axis=ax, dense=False))
+    elif k == 'group-md':
+        t.group_metadata(axis='observation')
+        t.group_metadata(axis='sample')
+    elif k == 'is_empty-length-shape':
+        t.is_empty()
+        t.length('sample')
+        t.length('observation')
+        t.shape
+        t.dtype
+    elif k == 'exists-index':
+        for ax in ('observation', 'sample'):
+            t.exists(t.ids(axis=ax)[-1], axis=ax)
+            t.exists('no such id', axis=ax)
+            t.index(t.ids(axis=ax)[0], axis=ax)
+    elif k == 'descriptive':
+        t.descriptive_equality(other)
+        other.descriptive_equality(t)
     return k
 
 
@@ -323,6 +356,16 @@ def run_case(ctx, index):
     r = ctx.rng(index)
     hdf5_ok = index % 3 == 0
     spec = gen.gen_spec(r, max_n=5, max_m=5, allow_empty_text=True)
+    if r.random() < .15:
+        # ids need not all carry the same categories
+        for md in (spec.obs_md, spec.samp_md):
+            if md and len(md) > 1 and r.random() < .7:
+                q = r.randrange(len(md))
+                if r.random() < .5 or len(md[q]) < 2:
+                    md[q]['only here'] = r.choice(['x', 3, ['a', 'b']])
+                else:
+                    del md[q][sorted(md[q], key=str)[-1]]
+                ctx.count('tables_with_ragged_metadata')
     rts = routes(ctx, r, spec)
     k = min(len(rts), r.randint(6, 10))
     chosen = r.sample(rts, k)
